@@ -287,20 +287,20 @@ macro "st_auto" : tactic => `(tactic| repeat' st_step)
 /-! ## the invariant -/
 
 section inv
-variable (p : Prog) (lvl : Nat → Nat) (Cal : Nat → Prop)
+variable (p : Prog) (lvl : Nat → Nat)
 
 /-- calling a `fn` object with handle `h` enters a position outside of every closure region -/
 def FnSafe (h : UInt32) : Prop :=
-  ∀ l, p.labels.find? (fun l => l.1 == h) = some l → lvl l.2 = 0 ∧ Cal l.2
+  ∀ l, p.labels.find? (fun l => l.1 == h) = some l → lvl l.2 = 0
 
 /-- a closure object with handle `h` and `n` upvalues has all the upvalues its body may ask for -/
 def Complete (h : UInt32) (n : Nat) : Prop :=
-  ∀ l, p.labels.find? (fun l => l.1 == h) = some l → lvl l.2 ≤ n ∧ Cal l.2
+  ∀ l, p.labels.find? (fun l => l.1 == h) = some l → lvl l.2 ≤ n
 
 /-- the heap part; the closure at `x` (under construction) is exempt -/
 structure HeapOkX (x : Option Nat) (hp : Heap) : Prop where
-  fn : ∀ a h ar, hp.get a = some (.fn h ar) → FnSafe p lvl Cal h
-  clo : ∀ a h ar ups, hp.get a = some (.closure h ar ups) → x ≠ some a → Complete p lvl Cal h ups.length
+  fn : ∀ a h ar, hp.get a = some (.fn h ar) → FnSafe p lvl h
+  clo : ∀ a h ar ups, hp.get a = some (.closure h ar ups) → x ≠ some a → Complete p lvl h ups.length
 
 /-- a closure object with at least `n` upvalues lives at `c` -/
 def Need (hp : Heap) (c n : Nat) : Prop := ∃ h ar ups, hp.get c = some (.closure h ar ups) ∧ n ≤ ups.length
@@ -314,17 +314,17 @@ def fcs (fs : List Frame) : List Nat := fs.filterMap (·.closure)
 
 /-- the invariant: heap part, the obligations `W`, rooted in the call stack `fs` -/
 structure InvX (x : Option Nat) (W : List (Option Nat × Nat)) (fs : List Frame) (s : VmState) : Prop where
-  heap : HeapOkX p lvl Cal x s.heap
+  heap : HeapOkX p lvl x s.heap
   obl : ∀ w ∈ W, FrameOk s.heap w.2 w.1
   rooted : ∀ w ∈ W, ∀ c, w.1 = some c → c ∈ fcs fs
   frames : s.frames = fs
   top : ∀ a, x = some a → Val.obj a ∈ s.stack.contents
 
-variable {p lvl Cal}
+variable {p lvl}
 
 theorem InvX.congr {x : Option Nat} {W : List (Option Nat × Nat)} {fs : List Frame} {s s' : VmState}
-    (h : InvX p lvl Cal x W fs s) (hh : s'.heap = s.heap) (hf : s'.frames = s.frames)
-    (ht : x = none ∨ s'.stack = s.stack) : InvX p lvl Cal x W fs s' :=
+    (h : InvX p lvl x W fs s) (hh : s'.heap = s.heap) (hf : s'.frames = s.frames)
+    (ht : x = none ∨ s'.stack = s.stack) : InvX p lvl x W fs s' :=
   ⟨by rw [hh]; exact h.heap, by rw [hh]; exact h.obl, h.rooted, by rw [hf]; exact h.frames, by
     intro a ha
     rcases ht with ht | ht
@@ -463,7 +463,7 @@ theorem harmless_set (s : VmState) (a : Nat) (o : Obj) (ho : isFC o = false)
     · exact ho'
 
 section inv2
-variable {p : Prog} {lvl : Nat → Nat} {Cal : Nat → Prop}
+variable {p : Prog} {lvl : Nat → Nat}
 
 theorem need_mono {hp hp' : Heap} {c n : Nat} (h : Need hp c n)
     (hk : ∀ o, hp.get c = some o → isClo o = true → hp'.get c = some o) : Need hp' c n := by
@@ -471,8 +471,8 @@ theorem need_mono {hp hp' : Heap} {c n : Nat} (h : Need hp c n)
   exact ⟨hd, ar, ups, hk _ hg rfl, hn⟩
 
 theorem InvX.harmless {x : Option Nat} {W : List (Option Nat × Nat)} {fs : List Frame} {s s' : VmState}
-    (h : InvX p lvl Cal x W fs s) (hh : Harmless s s') (hst : x = none ∨ s'.stack = s.stack) :
-    InvX p lvl Cal x W fs s' := by
+    (h : InvX p lvl x W fs s) (hh : Harmless s s') (hst : x = none ∨ s'.stack = s.stack) :
+    InvX p lvl x W fs s' := by
   refine ⟨⟨fun a hd ar hg => h.heap.fn a hd ar (hh.old a _ hg rfl),
       fun a hd ar ups hg hx => h.heap.clo a hd ar ups (hh.old a _ hg rfl) hx⟩, fun w hw => ?_, h.rooted,
     hh.frames.trans h.frames, fun a ha => by
@@ -517,8 +517,8 @@ structure Hl {α : Type} (m : M α) : Prop where
   rel : ∀ s, Harmless s (m.go s).2
   calm : ∀ s e, (m.go s).1 = .error e → Calm e
 
-theorem Hl.keeps {α : Type} {m : M α} (h : Hl m) {p : Prog} {lvl : Nat → Nat} {Cal : Nat → Prop}
-    {W : List (Option Nat × Nat)} {fs : List Frame} : Keeps (InvX p lvl Cal none W fs) m :=
+theorem Hl.keeps {α : Type} {m : M α} (h : Hl m) {p : Prog} {lvl : Nat → Nat}
+    {W : List (Option Nat × Nat)} {fs : List Frame} : Keeps (InvX p lvl none W fs) m :=
   ⟨fun s a s' hs hg => by have := h.rel s; rw [hg] at this; exact hs.harmless this (.inl rfl),
    fun s e s' hs hg => h.calm s e (by rw [hg])⟩
 
@@ -687,7 +687,7 @@ theorem hpres_initSimple (o : Obj) (ho : isFC o = false) : Pres Harmless (initSi
 
 /-- harmless + quiet ⇒ keeps the invariant -/
 theorem keeps_of_pres_quiet {α : Type} {m : M α} (hp : Pres Harmless m) (hq : Quiet m) {p : Prog}
-    {lvl : Nat → Nat} {Cal : Nat → Prop} {W : List (Option Nat × Nat)} {fs : List Frame} : Keeps (InvX p lvl Cal none W fs) m :=
+    {lvl : Nat → Nat} {W : List (Option Nat × Nat)} {fs : List Frame} : Keeps (InvX p lvl none W fs) m :=
   ⟨fun s a s' hs hg => by have := hp.rel s; rw [hg] at this; exact hs.harmless this (.inl rfl),
    fun s e s' hs hg => (hq s.frames).err s e s' rfl hg⟩
 
@@ -717,9 +717,9 @@ macro_rules | `(tactic| st_prim) => `(tactic| with_reducible first
   | exact keeps_of_pres_quiet (hpres_tableInsert _ _ _) (quiet_tableInsert _ _ _)
   | exact keeps_of_pres_quiet (hpres_nativeConv _) (quiet_nativeConv _))
 
-theorem InvX.congr' {p : Prog} {lvl : Nat → Nat} {Cal : Nat → Prop} {W : List (Option Nat × Nat)} {fs : List Frame}
-    {s s' : VmState} (h : InvX p lvl Cal none W fs s) (hh : s'.heap = s.heap) (hf : s'.frames = s.frames) :
-    InvX p lvl Cal none W fs s' := h.congr hh hf (.inl rfl)
+theorem InvX.congr' {p : Prog} {lvl : Nat → Nat} {W : List (Option Nat × Nat)} {fs : List Frame}
+    {s s' : VmState} (h : InvX p lvl none W fs s) (hh : s'.heap = s.heap) (hf : s'.frames = s.frames) :
+    InvX p lvl none W fs s' := h.congr hh hf (.inl rfl)
 
 macro_rules | `(tactic| st_side) => `(tactic| (apply InvX.congr' <;> first | assumption | rfl))
 macro_rules | `(tactic| st_leaf) => `(tactic| (apply InvX.congr' <;> first | assumption | rfl))
@@ -731,10 +731,10 @@ theorem st_quiet_true {α : Type} {E : ErrKind → Prop} [ErrClass E] {m : M α}
 
 macro_rules | `(tactic| st_spec) => `(tactic| with_reducible exact st_quiet_true (by fr_quiet_prim))
 
-example {E : ErrKind → Prop} [ErrClass E] {p : Prog} {lvl : Nat → Nat} {Cal : Nat → Prop}
+example {E : ErrKind → Prop} [ErrClass E] {p : Prog} {lvl : Nat → Nat}
     {W : List (Option Nat × Nat)} {fs : List Frame} (v : Val) :
-    St (InvX p lvl Cal none W fs) (modify fun s => { s with guards := (match v with | .obj a => [a] | _ => []) ++ s.guards } : M PUnit)
-      (fun _ => InvX p lvl Cal none W fs) E := by
+    St (InvX p lvl none W fs) (modify fun s => { s with guards := (match v with | .obj a => [a] | _ => []) ++ s.guards } : M PUnit)
+      (fun _ => InvX p lvl none W fs) E := by
   with_reducible refine st_modify (fun _ _ => ?hx)
   case hx => st_side
 
@@ -749,19 +749,19 @@ theorem ReSpecS.app {re : Reenter} {K : VmState → Prop} {E : ErrKind → Prop}
 
 macro_rules | `(tactic| st_spec) => `(tactic| with_reducible exact ReSpecS.app (by assumption) _)
 
-theorem st_callNativeBody {E : ErrKind → Prop} [ErrClass E] {p : Prog} {lvl : Nat → Nat} {Cal : Nat → Prop}
+theorem st_callNativeBody {E : ErrKind → Prop} [ErrClass E] {p : Prog} {lvl : Nat → Nat}
     {W : List (Option Nat × Nat)} {fs : List Frame} (re : Reenter)
-    (hre : ReSpecS re (InvX p lvl Cal none W fs) E) (name : String) :
-    St (InvX p lvl Cal none W fs) (callNativeBody re name) (fun _ => InvX p lvl Cal none W fs) E := by
+    (hre : ReSpecS re (InvX p lvl none W fs) E) (name : String) :
+    St (InvX p lvl none W fs) (callNativeBody re name) (fun _ => InvX p lvl none W fs) E := by
   unfold callNativeBody
   st_auto
 
 macro_rules | `(tactic| st_spec) => `(tactic| with_reducible exact st_callNativeBody _ (by assumption) _)
 
-theorem st_callNative {E : ErrKind → Prop} [ErrClass E] {p : Prog} {lvl : Nat → Nat} {Cal : Nat → Prop}
+theorem st_callNative {E : ErrKind → Prop} [ErrClass E] {p : Prog} {lvl : Nat → Nat}
     {W : List (Option Nat × Nat)} {fs : List Frame} (re : Reenter)
-    (hre : ReSpecS re (InvX p lvl Cal none W fs) E) (h : UInt32) :
-    St (InvX p lvl Cal none W fs) (callNative re h) (fun _ => InvX p lvl Cal none W fs) E := by
+    (hre : ReSpecS re (InvX p lvl none W fs) E) (h : UInt32) :
+    St (InvX p lvl none W fs) (callNative re h) (fun _ => InvX p lvl none W fs) E := by
   unfold callNative
   st_auto
 
@@ -771,88 +771,62 @@ macro_rules | `(tactic| st_spec) => `(tactic| with_reducible exact st_callNative
 
 /-- the static facts about the program (all of them are decidable properties of a concrete program):
 `G` = instruction starts, `lvl pos` = number of upvalues the code at `pos` may ask its closure for,
-`cnt c` = number of `CopyLast; RegisterUpvalue` pairs after the `Closure` instruction at `c`,
-`Cal` = code that `run_function` may be running (bodies of functions and closures) -/
-structure CapStatic (p : Prog) (G : Nat → Prop) (lvl cnt : Nat → Nat) (Cal : Nat → Prop) : Prop where
-  /-- falling through keeps the level and stays in callee code -/
+`cnt c` = number of `CopyLast; RegisterUpvalue` pairs after the `Closure` instruction at `c`.
+(The former field `noExit` — no `Exit` in callee code — and the parameter `Cal` it needed are gone:
+`run_function` restores the call stack whatever the callee did.) -/
+structure CapStatic (p : Prog) (G : Nat → Prop) (lvl cnt : Nat → Nat) : Prop where
+  /-- falling through keeps the level -/
   seq : ∀ src sp, G src → Gen.spanOf (p.bytecode.getD src 0) = some sp →
     p.bytecode.getD src 0 ≠ Compiler.op.exit → p.bytecode.getD src 0 ≠ Compiler.op.goto →
-    p.bytecode.getD src 0 ≠ Compiler.op.ret → lvl (src + sp) = lvl src ∧ (Cal src → Cal (src + sp))
+    p.bytecode.getD src 0 ≠ Compiler.op.ret → lvl (src + sp) = lvl src
   /-- so does jumping -/
   jump : ∀ src, G src → (p.bytecode.getD src 0 = Compiler.op.goto ∨
     p.bytecode.getD src 0 = Compiler.op.gotoIfTrue ∨ p.bytecode.getD src 0 = Compiler.op.gotoIfFalse) →
-    lvl (rdU32 p.bytecode (src + 1)) = lvl src ∧ (Cal src → Cal (rdU32 p.bytecode (src + 1)))
+    lvl (rdU32 p.bytecode (src + 1)) = lvl src
   /-- a non-local capture asks for an upvalue the level has -/
   reg : ∀ src, G src → p.bytecode.getD src 0 = Compiler.op.registerUpvalue →
     p.bytecode.getD (src + 2) 0 = 0 → (p.bytecode.getD (src + 1) 0).toNat < lvl src
-  /-- the handle of a `Closure` instruction enters a callee position whose level is at most the number
+  /-- the handle of a `Closure` instruction enters a position whose level is at most the number
   of pairs that follow the instruction -/
   closLabel : ∀ c, G c → p.bytecode.getD c 0 = Compiler.op.closure →
-    Complete p lvl Cal (UInt32.ofNat (rdU32 p.bytecode (c + 1))) (cnt c)
+    Complete p lvl (UInt32.ofNat (rdU32 p.bytecode (c + 1))) (cnt c)
   pairs : ∀ c k, G c → p.bytecode.getD c 0 = Compiler.op.closure → k < cnt c →
     p.bytecode.getD (c + 9 + 4 * k) 0 = Compiler.op.copyLast ∧
     p.bytecode.getD (c + 9 + 4 * k + 1) 0 = Compiler.op.registerUpvalue
-  /-- the handle of a `FunctionPointer` instruction enters a callee position of level 0 -/
+  /-- the handle of a `FunctionPointer` instruction enters a position of level 0 -/
   fnLabel : ∀ x, G x → p.bytecode.getD x 0 = Compiler.op.functionPointer →
-    FnSafe p lvl Cal (UInt32.ofNat (rdU32 p.bytecode (x + 1)))
-  /-- no `Exit` in callee code -/
-  noExit : ∀ src, G src → Cal src → p.bytecode.getD src 0 ≠ Compiler.op.exit
+    FnSafe p lvl (UInt32.ofNat (rdU32 p.bytecode (x + 1)))
+  /-- the return address `run_function` gives its callee (the final `Exit`) has level 0 -/
+  lastLvl : lvl (p.bytecode.size - 1) = 0
+  /-- so has the entry point of `run` -/
+  entryLvl : lvl 0 = 0
 
 /-- the closure at `a` is on top of the value stack -/
 def TopIs (s : VmState) (a : Nat) : Prop :=
   0 < s.stack.count ∧ s.stack.count < s.stack.data.length ∧ s.stack.data.getD (s.stack.count - 1) .nil = .obj a
 
-section step
-variable {p : Prog} {G : Nat → Prop} {lvl cnt : Nat → Nat} {Cal : Nat → Prop}
+/-- every obligation of `W` is rooted in the call stack `fs` -/
+def RootedIn (W : List (Option Nat × Nat)) (fs : List Frame) : Prop :=
+  ∀ w ∈ W, ∀ c, w.1 = some c → c ∈ fcs fs
 
 /-- what one instruction of the normal phase leads to -/
-inductive StepQ (p : Prog) (lvl : Nat → Nat) (Cal : Nat → Prop) (W0 : List (Option Nat × Nat))
+inductive StepQ (p : Prog) (lvl : Nat → Nat) (W0 : List (Option Nat × Nat))
     (fs0 : List Frame) (l : Frame) (src : Nat) : Ctl → VmState → Prop
   | exit {ctl : Ctl} {s' : VmState} : ctl.exit = true →
-      InvX p lvl Cal none (W0 ++ [(l.closure, lvl src)]) (fs0 ++ [l]) s' → StepQ p lvl Cal W0 fs0 l src ctl s'
+      InvX p lvl none (W0 ++ [(l.closure, lvl src)]) (fs0 ++ [l]) s' → StepQ p lvl W0 fs0 l src ctl s'
   | ord {ctl : Ctl} {s' : VmState} : ctl.exit = false →
-      InvX p lvl Cal none (W0 ++ [(l.closure, lvl src)]) (fs0 ++ [l]) s' → lvl ctl.ip = lvl src →
-      (Cal src → Cal ctl.ip) → StepQ p lvl Cal W0 fs0 l src ctl s'
+      InvX p lvl none (W0 ++ [(l.closure, lvl src)]) (fs0 ++ [l]) s' → lvl ctl.ip = lvl src →
+      StepQ p lvl W0 fs0 l src ctl s'
   | call {ctl : Ctl} {s' : VmState} (l' nf : Frame) : ctl.exit = false → l'.closure = l.closure →
-      lvl l'.dst = lvl src → (Cal src → Cal l'.dst) →
-      InvX p lvl Cal none (W0 ++ [(l.closure, lvl src)]) (fs0 ++ [l'] ++ [nf]) s' →
-      FrameOk s'.heap (lvl ctl.ip) nf.closure → Cal ctl.ip → StepQ p lvl Cal W0 fs0 l src ctl s'
-  | ret {ctl : Ctl} {s' : VmState} : ctl.exit = false → InvX p lvl Cal none W0 fs0 s' →
-      (∃ c, fs0.getLast? = some c ∧ ctl.ip = c.dst) → StepQ p lvl Cal W0 fs0 l src ctl s'
+      lvl l'.dst = lvl src →
+      InvX p lvl none (W0 ++ [(l.closure, lvl src)]) (fs0 ++ [l'] ++ [nf]) s' →
+      FrameOk s'.heap (lvl ctl.ip) nf.closure → StepQ p lvl W0 fs0 l src ctl s'
+  | ret {ctl : Ctl} {s' : VmState} : ctl.exit = false → InvX p lvl none W0 fs0 s' →
+      (∃ c, fs0.getLast? = some c ∧ ctl.ip = c.dst) → StepQ p lvl W0 fs0 l src ctl s'
   | clos {ctl : Ctl} {s' : VmState} (a : Nat) (ar : UInt32) : ctl.exit = false → ctl.ip = src + 9 →
       p.bytecode.getD src 0 = Compiler.op.closure →
-      InvX p lvl Cal (some a) (W0 ++ [(l.closure, lvl src)]) (fs0 ++ [l]) s' →
+      InvX p lvl (some a) (W0 ++ [(l.closure, lvl src)]) (fs0 ++ [l]) s' →
       s'.heap.get a = some (.closure (UInt32.ofNat (rdU32 p.bytecode (src + 1))) ar []) → TopIs s' a →
-      StepQ p lvl Cal W0 fs0 l src ctl s'
-
-theorem lseq_of (hs : CapStatic p G lvl cnt Cal) {src : Nat} (hsrc : G src) {o : UInt8}
-    (h : (p.bytecode.getD src 0 == o) = true) (sp : Nat) (hsp : Gen.spanOf o = some sp)
-    (hx : o ≠ Compiler.op.exit) (hg : o ≠ Compiler.op.goto) (hr : o ≠ Compiler.op.ret) :
-    lvl (src + sp) = lvl src ∧ (Cal src → Cal (src + sp)) := by
-  have := eq_of_beq h
-  exact hs.seq src sp hsrc (this ▸ hsp) (this ▸ hx) (this ▸ hg) (this ▸ hr)
-
-theorem arith_span' (b : UInt8) (h : (b == Compiler.op.and || b == Compiler.op.or || b == Compiler.op.xor || b == Compiler.op.add || b == Compiler.op.sub || b == Compiler.op.mul || b == Compiler.op.div || b == Compiler.op.equals || b == Compiler.op.notEquals || b == Compiler.op.less || b == Compiler.op.lessOrEq) = true) :
-    b ≠ Compiler.op.goto ∧ b ≠ Compiler.op.ret := by
-  have : ∀ n, n < 256 → isArith (UInt8.ofNat n) = true →
-      UInt8.ofNat n ≠ Compiler.op.goto ∧ UInt8.ofNat n ≠ Compiler.op.ret := by decide +kernel
-  exact forall_uint8 (P := fun b => isArith b = true → b ≠ Compiler.op.goto ∧ b ≠ Compiler.op.ret) this b h
-
-/-- **not proved** (the automation `st_auto` needs more than 10^6 heartbeats on the whole `step`; the
-branches have to be proved one opcode at a time): one instruction of the normal phase keeps the
-invariant, moves to a position of the same level (or calls / returns / starts a closure), and raises
-neither capture assertion.  With this statement, its analogue for the two tail instructions
-(`CopyLast` / `RegisterUpvalue` while a closure is under construction, `InvX (some a)`) and the induction
-of `NoPanicExec.exec_cfi` over the fuel (natives: `st_callNative`, proved above), the capture assertions
-are unreachable for every program with `CapStatic`. -/
-def st_step_Full : Prop :=
-  ∀ (E : ErrKind → Prop) [ErrClass E] (p : Prog) (G : Nat → Prop) (lvl cnt : Nat → Nat) (Cal : Nat → Prop),
-    CapStatic p G lvl cnt Cal → ∀ (re : Reenter) (W0 : List (Option Nat × Nat)) (fs0 : List Frame) (l : Frame)
-      (src : Nat), G src →
-      ReSpecS re (InvX p lvl Cal none (W0 ++ [(l.closure, lvl src)]) (fs0 ++ [l])) E →
-      St (InvX p lvl Cal none (W0 ++ [(l.closure, lvl src)]) (fs0 ++ [l])) (step p re src)
-        (StepQ p lvl Cal W0 fs0 l src) E
-
-end step
+      StepQ p lvl W0 fs0 l src ctl s'
 
 end Cao.Vm
